@@ -48,7 +48,13 @@ class DiscStorage:
         try:
             # a name with the full hash has no "*" which could match the
             # "-new" of the file
-            file = self._lookup_path(external(name)._path)
+            pattern = external(name)._path
+        except ValueError:
+            # no external of inline-snapshot (another function with this name)
+            return
+
+        try:
+            file = self._lookup_path(pattern)
         except HashError:
             return
         if file.stem.endswith("-new"):
